@@ -1,5 +1,9 @@
 import MoneroModel.Proofs.Json2
 import MoneroModel.Proofs.Json3
+import MoneroModel.Proofs.Json5
+import MoneroModel.Proofs.Json6
+import MoneroModel.Proofs.Json7
+import MoneroModel.Proofs.JsonShapes
 import MoneroModel.Props.C12
 import MoneroModel.Props.C15
 open Monero Monero.Json
@@ -68,11 +72,161 @@ theorem C19_roundtrip_RctSigPrunable (p : Prunable) (h : Json.wfPrunable p) : pr
 theorem C19_roundtrip_RctSig (b : Option Base) (p : Option Prunable) (hb : ∀ y, b = some y → Json.wfBase y)
     (hp : ∀ y, p = some y → Json.wfPrunable y) : rctSigFromJson (rctSigJ b p) = some (b, p) := rctSig_rt b p hb hp
 
+/-! ## `PublicKey`, `SubField`, `ExtraField` (the parsed form of the extra field; derived impls) -/
+
+/-- `PublicKey { point }`: `{"point":[32 numbers]}` — any 32 bytes (the derived reader does not check that they are a point) -/
+theorem C19_roundtrip_PublicKey (k : Bytes) (h : k.length = 32) : publicKeyFromJson (publicKeyJ k) = some k := publicKey_rt k h
+/-- `SubField`: newtype variants (`{"Padding":5}`, `{"Nonce":[…]}`, `{"TxPublicKey":{"point":[…]}}`, …) and the tuple variant
+`{"MergeMining":[depth,[32 numbers]]}` -/
+theorem C19_roundtrip_SubField (f : Extra.SubField) (h : Json.wfSubField f) : subFieldFromJson (subFieldJ f) = some f :=
+  subField_rt f h
+/-- `ExtraField(Vec<SubField>)` -/
+theorem C19_roundtrip_ExtraField (fs : List Extra.SubField) (h : ∀ f ∈ fs, Json.wfSubField f) :
+    extraFieldFromJson (extraFieldJ fs) = some fs := extraField_rt fs h
+/-- the values of C16 are instances: whatever `SubField::consensus_decode` returns (for any key-validity predicate `vk`, from
+any bytes) round-trips through its JSON tree … -/
+theorem C19_roundtrip_decoded_SubField (vk : Bytes → Bool) (b r : Bytes) (sf : Extra.SubField)
+    (h : Extra.subFieldRd vk b = (some sf, r)) : subFieldFromJson (subFieldJ sf) = some sf :=
+  subField_rt sf (subFieldRd_wf vk b sf r h)
+/-- … and so does the `ExtraField` that `ExtraField::try_parse` / `RawExtraField::try_parse` return for ANY raw extra (complete
+parse or salvaged fields) -/
+theorem C19_roundtrip_parsed_ExtraField (vk : Bytes → Bool) (e : Bytes) :
+    extraFieldFromJson (extraFieldJ (Extra.tryParse vk e).fields) = some (Extra.tryParse vk e).fields ∧
+    extraFieldFromJson (extraFieldJ (Extra.rawTryParse vk e)) = some (Extra.rawTryParse vk e) :=
+  ⟨extraField_rt _ (tryParse_wf vk e), extraField_rt _ (tryParse_wf vk e)⟩
+
+/-- the variant names are pairwise distinct (so the first matching branch of the reader is the only one), and a document
+naming no variant of `SubField` is refused -/
+theorem C19_SubField_unknown_variant_refused (tag : String) (c : Json) (h : tag ∉ subFieldNames) :
+    subFieldFromJson (.obj [(tag, c)]) = none := by
+  simp only [subFieldNames, List.mem_cons, List.not_mem_nil, or_false, not_or] at h
+  obtain ⟨h1, h2, h3, h4, h5, h6⟩ := h
+  simp only [subFieldFromJson, h1, h2, h3, h4, h5, h6, if_false]
+
 /-! ## transaction, block -/
 
 theorem C19_roundtrip_Transaction (t : Tx) (h : Json.wfTx t) : txFromJson (txJ t) = some t := tx_rt t h
 theorem C19_roundtrip_BlockHeader (h : Header) (hw : Json.wfHeader h) : headerFromJson (headerJ h) = some h := header_rt h hw
 theorem C19_roundtrip_Block (b : Block) (h : Json.wfBlock b) : blockFromJson (blockJ b) = some b := block_rt b h
+
+/-! ## the values of C02 are instances: wire-well-formed values and decoded values are values of the Rust type -/
+
+/-- every value that satisfies the wire predicate of C02 (`wfTx` of `Proofs/TxComplete2.lean`, DESIGN.md Appendix B — the
+values `serialize` / `deserialize` round-trip) is a value of the Rust type in the sense of `Json.wfTx` -/
+theorem C19_wf_of_wire (t : Tx) (h : _root_.wfTx t) : Json.wfTx t := wfTx_of_wire t h
+theorem C19_wf_of_wire_Block (b : Block) (h : _root_.wfBlock b) : Json.wfBlock b := wfBlock_of_wire b h
+theorem C19_wf_of_wire_TransactionPrefix (p : Prefix) (h : _root_.wfPrefix p) : Json.wfPrefix p := wfPrefix_of_wire p h
+
+/-- whatever the consensus decoders return (from any bytes, with any rest) is a value of the Rust type -/
+theorem C19_wf_of_decoded (b r : Bytes) (t : Tx) (h : tx b = some (t, r)) : Json.wfTx t := yields_tx b t r h
+theorem C19_wf_of_decoded_Block (b r : Bytes) (x : Block) (h : block b = some (x, r)) : Json.wfBlock x := yields_block b x r h
+theorem C19_wf_of_decoded_TransactionPrefix (b r : Bytes) (p : Prefix) (h : prefix' b = some (p, r)) : Json.wfPrefix p :=
+  yields_prefix b p r h
+
+/-- **"every value produced by the generators of C02"**: a transaction / block / prefix that satisfies the WF predicate of the
+C02 theorems round-trips through its JSON tree … -/
+theorem C19_roundtrip_wire (t : Tx) (h : _root_.wfTx t) : txFromJson (txJ t) = some t :=
+  C19_roundtrip_Transaction t (C19_wf_of_wire t h)
+theorem C19_roundtrip_wire_Block (b : Block) (h : _root_.wfBlock b) : blockFromJson (blockJ b) = some b :=
+  C19_roundtrip_Block b (C19_wf_of_wire_Block b h)
+theorem C19_roundtrip_wire_TransactionPrefix (p : Prefix) (h : _root_.wfPrefix p) : prefixFromJson (prefixJ p) = some p :=
+  C19_roundtrip_TransactionPrefix p (C19_wf_of_wire_TransactionPrefix p h)
+
+/-- … and so does every value that came out of `deserialize` (what the harness feeds to `c19_json tx|block|prefix`) -/
+theorem C19_roundtrip_decoded (b r : Bytes) (t : Tx) (h : tx b = some (t, r)) : txFromJson (txJ t) = some t :=
+  C19_roundtrip_Transaction t (C19_wf_of_decoded b r t h)
+theorem C19_roundtrip_decoded_Block (b r : Bytes) (x : Block) (h : block b = some (x, r)) : blockFromJson (blockJ x) = some x :=
+  C19_roundtrip_Block x (C19_wf_of_decoded_Block b r x h)
+theorem C19_roundtrip_decoded_TransactionPrefix (b r : Bytes) (p : Prefix) (h : prefix' b = some (p, r)) :
+    prefixFromJson (prefixJ p) = some p :=
+  C19_roundtrip_TransactionPrefix p (C19_wf_of_decoded_TransactionPrefix b r p h)
+
+/-- the two chained: serialise to consensus bytes, deserialise, write JSON, read JSON — the value is unchanged -/
+theorem C19_roundtrip_wire_then_json (t : Tx) (h : _root_.wfTx t) (r : Bytes) :
+    ∃ t', tx (encTx t ++ r) = some (t', r) ∧ txFromJson (txJ t') = some t := by
+  refine ⟨t, complete_tx t r h, C19_roundtrip_wire t h⟩
+
+/-! ## the shapes are those DECLARED in /repo (relation A)
+
+`Gen/JsonShapes.lean` is regenerated from the current source on every run: every struct / enum deriving `Serialize` /
+`Deserialize` with its field / variant identifiers in declaration order and every `serde(..)` attribute. The theorems below tie
+the hand-written names of `Model/Json.lean` to that table: a renamed, added, removed or reordered field or variant, a new
+deriving type, a new attribute (`default`, `rename`, `skip…`, `flatten`, `with`, `tag`, …) or a new hand-written impl makes one
+of them false, i.e. the build of this file fails. (The READERS are tied to the same names by the round-trip theorems: a reader
+using another key would not read back what the serialiser writes.) -/
+
+/-- the items of /repo that derive serde impls are exactly the ones modelled, each of the kind modelled -/
+theorem C19_shape_items :
+    Gen.jsonShapes.map (fun i => (i.name, i.kind)) =
+      [("Block", "struct"), ("BlockHeader", "struct"), ("BoroSig", "struct"), ("Bulletproof", "struct"),
+       ("BulletproofPlus", "struct"), ("Clsag", "struct"), ("CtKey", "struct"), ("EcdhInfo", "enum"), ("ExtraField", "newtype"),
+       ("Hash", "fixed_hash(32)"), ("Hash8", "fixed_hash(8)"), ("Index", "struct"), ("Key", "struct"), ("Key64", "struct"),
+       ("KeyImage", "struct"), ("MgSig", "struct"), ("PublicKey", "struct"), ("RangeSig", "struct"), ("RawExtraField", "newtype"),
+       ("RctSig", "struct"), ("RctSigBase", "struct"), ("RctSigPrunable", "struct"), ("RctType", "enum"), ("Signature", "struct"),
+       ("SubField", "enum"), ("Transaction", "struct"), ("TransactionPrefix", "struct"), ("TxIn", "enum"), ("TxOut", "struct"),
+       ("TxOutTarget", "enum"), ("VarInt", "newtype")] := by decide
+
+/-- the only serde attributes in /repo besides the `crate` path are the three the model implements: `transparent` on
+`RawExtraField`, `BigArray` on `Key64.keys`, `as_pico` on `RctSigBase.txn_fee`; and the only hand-written impls are `Address`'s -/
+theorem C19_shape_attributes :
+    genAttrs = [("Key64", "keys", "with=\"BigArray\""), ("RawExtraField", "", "transparent"),
+      ("RctSigBase", "txn_fee", "with=\"crate::util::amount::serde::as_pico\"")] ∧
+    Gen.jsonHandWritten = ["Deserialize for Address", "Serialize for Address"] := by decide
+
+/-- "under every configuration": every serde derive and every `serde(..)` attribute in /repo is applied under exactly the
+condition `feature = "serde"` — none unconditionally, none under `full` / `experimental` / another feature, and no deriving item
+carries a `#[cfg(..)]` of its own; so the set of impls and their shapes do not depend on any other feature (statically; the
+harness builds the crate with `serde` + the default features only) -/
+theorem C19_shape_feature_gate : Gen.jsonCfgConditions = ["feature=\"serde\""] := by decide
+
+/-- every struct is written as an object whose keys are the declared field identifiers, in declaration order — whatever the value -/
+theorem C19_shape_structs :
+    (∀ k, objKeys (keyJ k) = genFields "Key") ∧ (∀ b, objKeys (key64J b) = genFields "Key64") ∧
+    (∀ b, objKeys (sigJ b) = genFields "Signature") ∧ (∀ k, objKeys (ctKeyJ k) = genFields "CtKey") ∧
+    (∀ o, objKeys (txOutJ o) = genFields "TxOut") ∧ (∀ p, objKeys (prefixJ p) = genFields "TransactionPrefix") ∧
+    (∀ b, objKeys (baseJ b) = genFields "RctSigBase") ∧ (∀ b, objKeys (rangeSigJ b) = genFields "RangeSig") ∧
+    (∀ b, (getKey "asig" (rangeSigJ b)).map objKeys = some (genFields "BoroSig")) ∧
+    (∀ x, objKeys (bpJ x) = genFields "Bulletproof") ∧ (∀ x, objKeys (bppJ x) = genFields "BulletproofPlus") ∧
+    (∀ m, objKeys (mgJ m) = genFields "MgSig") ∧ (∀ c, objKeys (clsagJ c) = genFields "Clsag") ∧
+    (∀ p, objKeys (prunableJ p) = genFields "RctSigPrunable") ∧ (∀ b p, objKeys (rctSigJ b p) = genFields "RctSig") ∧
+    (∀ t, objKeys (txJ t) = genFields "Transaction") ∧ (∀ h, objKeys (headerJ h) = genFields "BlockHeader") ∧
+    (∀ b, objKeys (blockJ b) = genFields "Block") ∧ (∀ i, objKeys (indexJ i) = genFields "Index") ∧
+    (∀ k, objKeys (publicKeyJ k) = genFields "PublicKey") :=
+  ⟨fun _ => rfl, fun _ => rfl, fun _ => rfl, fun _ => rfl, fun _ => rfl, fun _ => rfl, fun _ => rfl, fun _ => rfl, fun _ => rfl,
+   fun _ => rfl, fun _ => rfl, fun _ => rfl, fun _ => rfl, fun _ => rfl, fun _ _ => rfl, fun _ => rfl, fun _ => rfl, fun _ => rfl,
+   fun _ => rfl, fun _ => rfl⟩
+
+/-- every enum value is written as `{"Variant": content}` with the declared variant identifier; a struct variant's content has
+the declared field identifiers in declaration order (`KeyImage` inside `TxIn::ToKey` too); `RctType`'s unit variants are the
+names of the model's table, in declaration order (so the bound 7 of `wfBase` is the number of declared variants) -/
+theorem C19_shape_enums :
+    (∀ h, structVariantOf (txInJ (.gen h)) = (genVariants "TxIn")[0]?) ∧
+    (∀ a o k, structVariantOf (txInJ (.toKey a o k)) = (genVariants "TxIn")[1]?) ∧
+    (genVariants "TxIn").length = 2 ∧
+    (∀ a o k, ((variantOf (txInJ (.toKey a o k))).bind fun x => getKey "k_image" x.2).map objKeys = some (genFields "KeyImage")) ∧
+    (∀ k, structVariantOf (targetJ (.key k)) = (genVariants "TxOutTarget")[0]?) ∧
+    (∀ k t, structVariantOf (targetJ (.tagged k t)) = (genVariants "TxOutTarget")[1]?) ∧
+    (genVariants "TxOutTarget").length = 2 ∧
+    (∀ m a, structVariantOf (ecdhJ (.std m a)) = (genVariants "EcdhInfo")[0]?) ∧
+    (∀ a, structVariantOf (ecdhJ (.bp a)) = (genVariants "EcdhInfo")[1]?) ∧
+    (genVariants "EcdhInfo").length = 2 ∧
+    genVariants "RctType" = rctNames.map (fun n => (n, [])) ∧ rctNames.length = 7 :=
+  ⟨fun _ => rfl, fun _ _ _ => rfl, rfl, fun _ _ _ => rfl, fun _ => rfl, fun _ _ => rfl, rfl, fun _ _ => rfl, fun _ => rfl, rfl,
+   by decide, rfl⟩
+
+/-- `SubField`: the declared variants are the model's names, five newtype variants and the two-field tuple variant
+`MergeMining`; each constructor of the model is written under its variant -/
+theorem C19_shape_SubField :
+    genVariants "SubField" = [("TxPublicKey", ["0"]), ("Nonce", ["0"]), ("Padding", ["0"]), ("MergeMining", ["0", "1"]),
+      ("AdditionalPublickKey", ["0"]), ("MysteriousMinerGate", ["0"])] ∧
+    (genVariants "SubField").map (·.1) = subFieldNames ∧
+    (∀ k, (variantOf (subFieldJ (.txPub k))).map (·.1) = subFieldNames[0]?) ∧
+    (∀ n, (variantOf (subFieldJ (.nonce n))).map (·.1) = subFieldNames[1]?) ∧
+    (∀ n, (variantOf (subFieldJ (.padding n))).map (·.1) = subFieldNames[2]?) ∧
+    (∀ d h, (variantOf (subFieldJ (.mergeMining d h))).map (·.1) = subFieldNames[3]?) ∧
+    (∀ ks, (variantOf (subFieldJ (.addKeys ks))).map (·.1) = subFieldNames[4]?) ∧
+    (∀ d, (variantOf (subFieldJ (.minerGate d))).map (·.1) = subFieldNames[5]?) :=
+  ⟨by decide, by decide, fun _ => rfl, fun _ => rfl, fun _ => rfl, fun _ _ => rfl, fun _ => rfl, fun _ => rfl⟩
 
 /-! ## amount helpers -/
 
@@ -191,6 +345,86 @@ theorem C19_amount_helpers (signed : Bool) :
   ⟨C19_amount_pico signed, fun a h hs => (C19_amount_xmr signed a h hs).2, C19_amount_xmr_refused signed,
    C19_amount_opt signed, C19_amount_vec signed⟩
 
+/-! ## amount helpers, stated against the SPECIFICATION of C15 (`Spec/Decimal.lean`) -/
+
+/-- `as_xmr` writes THE exact decimal string of the specification (`Spec.Decimal.specFormat 12`: sign, integer part
+`|a| div 10^12`, a point and exactly twelve fraction digits), for every `u64` / `i64` — the clause "exact decimal strings",
+no longer only "the string `to_string_in` produces" -/
+theorem C19_amount_xmr_exact (signed : Bool) (a : Int) (h : InRange signed a) :
+    amtJ signed .xmr a = .str (Spec.Decimal.specFormat 12 a) := by
+  have hu : signed = false → 0 ≤ a := by
+    intro hf; subst hf; have h' : 0 ≤ a ∧ a < 2 ^ 64 := by simpa [InRange] using h
+    exact h'.1
+  simp only [amtJ, (C15.C15_fmt_exact signed .Monero a hu).1]
+  rfl
+
+/-- `as_xmr` reads ANY JSON string — not only one it wrote — exactly as the specification's parser for twelve decimals
+does (plain or escaped in the JSON text), and refuses everything that is not a string -/
+theorem C19_amount_xmr_reads_spec (signed : Bool) (j : Json) :
+    (∀ s, (j = .str s ∨ j = .strEsc s) → amtFromJson signed .xmr j = Spec.Decimal.specParse signed 12 s) ∧
+    ((∀ s, j ≠ .str s ∧ j ≠ .strEsc s) → amtFromJson signed .xmr j = none) := by
+  refine ⟨fun s hj => ?_, fun hns => ?_⟩
+  · have := C15.C15_parse_eq signed .Monero s
+    rcases hj with rfl | rfl <;> simp only [amtFromJson, readString, this] <;> rfl
+  · cases j with
+    | str s => exact absurd rfl (hns s).1
+    | strEsc s => exact absurd rfl (hns s).2
+    | _ => rfl
+
+/-- the parsing limit on ARBITRARY input: whatever `as_xmr` accepts has magnitude at most `2^63 − 1` (so an unsigned result
+never exceeds `i64::MAX`, a signed one is never `i64::MIN`), is non-negative for `Amount`, and is a value of the Rust type -/
+theorem C19_amount_xmr_cap (signed : Bool) (j : Json) (r : Int) (h : amtFromJson signed .xmr j = some r) :
+    Small r ∧ (signed = false → 0 ≤ r) ∧ InRange signed r := by
+  have hs : ∃ s, AmtText.fromStrIn signed s .Monero = .ok r := by
+    cases j with
+    | str s =>
+      refine ⟨s, ?_⟩
+      simp only [amtFromJson, readString] at h
+      cases hf : AmtText.fromStrIn signed s .Monero with
+      | ok v => rw [hf] at h; simp only [Except.toOption, Option.some.injEq] at h; rw [h]
+      | error e => rw [hf] at h; simp [Except.toOption] at h
+    | strEsc s =>
+      refine ⟨s, ?_⟩
+      simp only [amtFromJson, readString] at h
+      cases hf : AmtText.fromStrIn signed s .Monero with
+      | ok v => rw [hf] at h; simp only [Except.toOption, Option.some.injEq] at h; rw [h]
+      | error e => rw [hf] at h; simp [Except.toOption] at h
+    | _ => simp [amtFromJson, readString] at h
+  obtain ⟨s, hs⟩ := hs
+  cases signed with
+  | false =>
+    have := C15.C15_unsigned_cap .Monero s r hs
+    refine ⟨by unfold Json.Small; omega, fun _ => this.1, ?_⟩
+    simp only [InRange, Bool.false_eq_true, if_false]; omega
+  | true =>
+    have := C15.C15_signed_cap .Monero s r hs
+    refine ⟨by unfold Json.Small; omega, fun hf => (by cases hf), ?_⟩
+    simp only [InRange, if_true]; omega
+
+/-- options: `Some(a)` above the limit, written as a monero string, is refused on deserialisation (as plain and sequence are) -/
+theorem C19_amount_opt_refused (signed : Bool) (a : Int) (h : InRange signed a) (hs : ¬ Small a) :
+    amtOptFromJson signed .xmr (amtOptJ signed .xmr (some a)) = none := by
+  have := C19_amount_xmr_refused signed a h hs
+  simp only [amtOptFromJson, amtOptJ]
+  cases hj : amtJ signed .xmr a with
+  | null => exact absurd hj (C19_amount_not_null signed .xmr a)
+  | _ => simp only [readOption, ← hj, this, Option.map_none]
+
+/-- the documented struct usage above the limit: all three wrappers refuse what they wrote themselves -/
+theorem C19_amount_in_struct_refused (signed : Bool) (a : Int) (h : InRange signed a) (hs : ¬ Small a) :
+    hasAmountFromJson signed .xmr (hasAmountJ signed .xmr a) = none ∧
+    hasOptAmountFromJson signed .xmr (hasOptAmountJ signed .xmr (some a)) = none ∧
+    (∀ xs, a ∈ xs → hasAmountsFromJson signed .xmr (hasAmountsJ signed .xmr xs) = none) := by
+  refine ⟨?_, ?_, fun xs hx => ?_⟩
+  · simp only [hasAmountFromJson, hasAmountJ, fieldsOf_one, req, C19_amount_xmr_refused signed a h hs]
+  · simp only [hasOptAmountFromJson, hasOptAmountJ, fieldsOf_one, C19_amount_opt_refused signed a h hs]
+  · simp only [hasAmountsFromJson, hasAmountsJ, fieldsOf_one, C19_amount_vec_refused signed xs a hx h hs]
+
+/-- a missing field: refused for the plain wrapper (no `default`), `None` / empty for the `#[serde(default, …)]` wrappers -/
+theorem C19_amount_struct_missing_field (signed : Bool) (e : AmtEnc) :
+    hasAmountFromJson signed e (.obj []) = none ∧ hasOptAmountFromJson signed e (.obj []) = some none ∧
+    hasAmountsFromJson signed e (.obj []) = some [] := ⟨rfl, rfl, rfl⟩
+
 /-! ## address -/
 
 /-- the JSON of a (constructible) address is the string of C12 — `Display`, i.e. Monero's base58 text — and deserialising
@@ -239,6 +473,14 @@ example : txJ ⟨⟨2, 0, [.gen 5], [], [1]⟩, [], none, none⟩ =
     .obj [("prefix", .obj [("version", .num 2), ("unlock_time", .num 0),
             ("inputs", .arr [.obj [("Gen", .obj [("height", .num 5)])]]), ("outputs", .arr []), ("extra", .arr [.num 1])]),
           ("signatures", .arr []), ("rct_signatures", .obj [("sig", .null), ("p", .null)])] := rfl
+example : _root_.wfTx ⟨⟨2, 0, [], [], []⟩, [], none, none⟩ := by
+  simp [_root_.wfTx, _root_.wfPrefix, VecOK, _root_.U64, Monero.CAP, Gen.CAP]
+example : ∃ b t r, tx b = some (t, r) :=
+  ⟨_, _, [], complete_tx ⟨⟨2, 0, [], [], []⟩, [], none, none⟩ [] (by simp [_root_.wfTx, _root_.wfPrefix, VecOK, _root_.U64, Monero.CAP, Gen.CAP])⟩
+example : ∀ f ∈ [Extra.SubField.txPub (List.replicate 32 7), .nonce [1, 2], .padding 255, .mergeMining (2 ^ 64 - 1) (List.replicate 32 0),
+    .addKeys [List.replicate 32 1], .minerGate []], Json.wfSubField f := by
+  simp [Json.wfSubField, Json.U64]
+example : subFieldJ (.mergeMining 7 [1, 2]) = .obj [("MergeMining", .arr [.num 7, .arr [.num 1, .num 2]])] := rfl
 example : InRange false (2 ^ 64 - 1) ∧ ¬ Small (2 ^ 64 - 1) := by
   refine ⟨by simp [InRange], ?_⟩
   unfold Json.Small; omega
